@@ -4,7 +4,7 @@
 From Coq Require Import List NArith ZArith Bool Lia.
 Import ListNotations.
 From JB Require Import Constants Bytes Utf8 Num Value Codec Order OrderProofs CodecProofs RoundtripProofs TreeOps JsonText
-  Dispatch DispatchProofs Walk WalkProofs Iter IterProofs Builder BuilderProofs TreeWf EditWalk.
+  Dispatch DispatchProofs Walk WalkProofs Iter IterProofs Builder BuilderProofs TreeWf EditWalk I32.
 Open Scope N_scope.
 Set Default Timeout 120.
 
@@ -410,17 +410,13 @@ Proof.
   intros W. pose proof (wfb_size v W) as H. unfold delete_by_index_b. rewrite (rd_enc v H). cbn [bind].
   rewrite (doc_hdr_type v H). destruct v as [|b|s|n|l|o]; try reflexivity.
   cbn [doc_type doc_hdr delete_by_index_t]. tags. rewrite (doc_hdr_len_arr l H), lenZ_lenN.
-  set (j := resolve i (lenZ l)).
-  destruct ((0 <=? j)%Z && (j <? lenZ l)%Z) eqn:E.
-  - apply andb_true_iff in E. destruct E as [E1 E2]. apply Z.leb_le in E1. apply Z.ltb_lt in E2.
-    assert (E3 : ((j <? 0)%Z || (lenZ l <=? j)%Z) = false)
-      by (apply orb_false_iff; split; [apply Z.ltb_ge|apply Z.leb_gt]; lia).
-    rewrite E3. rewrite (arr_items_enc l H). cbn [bind res_map].
-    rewrite remove_at_nth, remove_nth_map, Z_N_nat.
-    rewrite build_items by (apply wf_size_remove_nth; exact H). reflexivity.
-  - assert (E3 : ((j <? 0)%Z || (lenZ l <=? j)%Z) = true).
-    { apply andb_false_iff in E. apply orb_true_iff. destruct E as [E|E]; [left; apply Z.ltb_lt; apply Z.leb_gt in E|right; apply Z.leb_le; apply Z.ltb_ge in E]; lia. }
-    rewrite E3. reflexivity.
+  (* the byte branch resolves and tests the position by the same function as the text branch (I32.v, on the generated formulas) *)
+  rewrite <- DBI_RESOLVE_text_eq_bytes, DBI_KEEP_text_eq_bytes.
+  set (j := DBI_T_RESOLVE i (lenZ l)).
+  destruct (DBI_B_SKIP j (lenZ l)) eqn:E; cbn [negb]; [reflexivity|].
+  rewrite (arr_items_enc l H). cbn [bind res_map].
+  rewrite remove_at_nth, remove_nth_map, Z_N_nat.
+  rewrite build_items by (apply wf_size_remove_nth; exact H). reflexivity.
 Qed.
 
 Theorem delete_by_index_w_enc v i buf : wfb v = true -> top_ok v ->
@@ -446,7 +442,7 @@ Theorem array_insert_b_enc v pos x buf : wfb v = true -> wfb x = true -> wf_size
 Proof.
   intros W Wx Hr. pose proof (wfb_size v W) as H. pose proof (wfb_size x Wx) as Hx.
   unfold array_insert_b. rewrite (rd_enc v H). cbn [bind]. rewrite (doc_hdr_type v H).
-  set (len := if doc_type v =? ARRAY_CONTAINER_TAG then Z.of_N (hdr_len (doc_hdr v)) else 1%Z).
+  set (len := if doc_type v =? ARRAY_CONTAINER_TAG then Z.of_N (hdr_len (doc_hdr v)) else AI_NONARRAY_LEN).
   assert (Elen : len = lenZ (base_items v)).
   { unfold len. destruct v as [|b|s|n|l|o]; cbn [doc_type base_items]; tags; try reflexivity.
     cbn [doc_hdr]. rewrite (doc_hdr_len_arr l H). apply lenZ_lenN. }
@@ -460,11 +456,11 @@ Proof.
   rewrite Eitems. cbn [bind]. rewrite Elen.
   rewrite split_at_firstn_skipn. rewrite (rd_enc x Hx). cbn [bind]. rewrite (doc_hdr_type x Hx), (new_item_enc x Hx). cbn [bind].
   rewrite Z_N_nat. rewrite firstn_map, skipn_map.
-  change (item_of x :: map item_of (skipn (Z.to_nat (clamp 0 (lenZ (base_items v)) (resolve pos (lenZ (base_items v))))) (base_items v)))
-    with (map item_of (x :: skipn (Z.to_nat (clamp 0 (lenZ (base_items v)) (resolve pos (lenZ (base_items v))))) (base_items v))).
+  change (item_of x :: map item_of (skipn (Z.to_nat (AI_CLAMP (AI_RESOLVE pos (lenZ (base_items v))) (lenZ (base_items v)))) (base_items v)))
+    with (map item_of (x :: skipn (Z.to_nat (AI_CLAMP (AI_RESOLVE pos (lenZ (base_items v))) (lenZ (base_items v)))) (base_items v))).
   rewrite <- map_app.
-  assert (Et : array_insert_t v pos x = VArr (firstn (Z.to_nat (clamp 0 (lenZ (base_items v)) (resolve pos (lenZ (base_items v))))) (base_items v)
-                 ++ x :: skipn (Z.to_nat (clamp 0 (lenZ (base_items v)) (resolve pos (lenZ (base_items v))))) (base_items v)))
+  assert (Et : array_insert_t v pos x = VArr (firstn (Z.to_nat (AI_CLAMP (AI_RESOLVE pos (lenZ (base_items v))) (lenZ (base_items v)))) (base_items v)
+                 ++ x :: skipn (Z.to_nat (AI_CLAMP (AI_RESOLVE pos (lenZ (base_items v))) (lenZ (base_items v)))) (base_items v)))
     by (unfold array_insert_t, base_items; reflexivity).
   rewrite Et in *. rewrite build_items by exact Hr. reflexivity.
 Qed.
